@@ -147,6 +147,9 @@ PROPS = {    "C01": {
                    must=["C05.nolaunch/no-step-command-starts-after-stop-accepted", "C05.stop/stopped-run-ends-canceled"]),
             run_ob("C05.repeat", "VerifHarness_RUN_C05_rep", 0, None, None, unwind=12, bq={"N": 2, "repeating_step": "s0 (interval 0)", "iterations": "<= 10 (longer waits for the stop are cut)", "stop": "at quiescent points"},
                    must=["C05.repeat/repeating-step-is-not-signalled", "C05.nolaunch/no-step-command-starts-after-stop-accepted"], extra=["-unwind-cut"]),
+            {"name": "C05.group", "pkg": "./internal/dag/executor", "replay": "R1", "must_assert": ["C05.group/stop-signal-reaches-the-whole-process-group-of-the-step"],
+             "quick": {"entry": "VerifHarness_C05_group", "flags": ["-unwind", "24"], "sample_paths": 1,
+                       "bounds": {"pid": "2..4194304 (symbolic)", "signal": "1..31 (symbolic)", "native_replay": "a real sh with a background grandchild started through the real newCommand"}}},
             ag_ob("C05.escalate", "VerifHarness_AG_escalate", ["C05."], ["C05.escalate/stop-completes-only-after-the-process-ended-or-was-force-killed"],
                   {"steps": 1, "process": "ignores the stop signal, ends on its own at any later point", "stop": "while the process runs"}),
             run_ob("C05.timeout", "VerifHarness_RUN_C05_timeout", 0, None, None, bq={"N": 2, "R": 1, "timeout": "1h on a symbolic clock; expiry at any quiescent point, consistent with the program clock"},
